@@ -62,6 +62,13 @@ P = {
  "C15": ("simulation between storage machines",
          "Theorems (Props/C15.lean): FileStorage (bytes+cursor), MemoryStorage (slice assignment) and MemMapStorage simulate one block list under the "
          "call discipline, for any sequence of storage calls; cursor reads are shown back-end dependent (the D2 hazard)."),
+ "C16": ("coroutine state machines + frame theorems for the query machines; schedule safety by correspondence; F16 known finding",
+         "Model: the four generators as explicit state machines yielding exactly where the code does, with the stale node copies the code holds "
+         "across a yield. Theorems (Props/C16.lean): query sections never write; finished generators are inert. The tie advances the real "
+         "generators (should_yield wrapped to True) and the model under the same random schedules of 2-3 requests and compares every step's "
+         "status, the final answers and the final bytes; the oracle states C16 directly (no failure, final pages/links = sequential application, "
+         "symmetry, query bounds from atomic probes after every step). What the model cannot exhibit: CPython generator semantics are modelled, "
+         "validated by the tie, not verified. The soundness clause for queries is false of the code (F16, known finding)."),
  "C17": ("algebraic laws of the byte-level function on the grammar, via a proved stem-level bridge",
          "Theorems (Props/C17.lean): head, nodup, local, closed (permutation) for every LRU of the property's grammar, incl. path stems containing "
          "'s:http' / 'h:'; the byte-level replace/split code equals the stem-level specification."),
@@ -78,7 +85,6 @@ P = {
          "sources. D4 (lonely page reported with 1) is a known finding mirrored by a probed configuration bit."),
 }
 NOT_YET = {
- "C16": "model of the four generators as explicit state machines (Co.lean) and the scheduling harness are being built in this session; not claimed until the check exists",
 }
 
 def main():
